@@ -1,6 +1,6 @@
 """TorchDistributedCommunicator and helpers (kfac/distributed.py): C08, C14, C03, C13."""
 from pyvc.contracts import contract, lemma, spec_def
-from pyvc.values import KInt, KReal, KBool, KDyn, KFn, KStr, KDict, KList, KRef, KTuple
+from pyvc.values import KInt, KReal, KBool, KDyn, KFn, KStr, KDict, KList, KRef, KTuple, KSetInt
 from pyvc.tensors import KShape
 
 T = KRef('Tensor')
@@ -20,6 +20,24 @@ spec_def('is_square', ['sh'], 'len(sh) == 2 and sh[0] == sh[1]')
 COMM_PRE = [('tensor_present', 'tensor is not None'), ('member_of_group', 'in_group(group)')]
 NONSQUARE = [('NonSquareTensorError', 'group_size(group) != 1 and symmetric and not is_square(tensor.shape)')]
 
+# ---- triangular packing (C14): interface used by the communicator; bodies verified below
+contract('kfac.distributed:get_triu', props=['C14', 'C08'], params={'tensor': T}, result=T,
+         requires=[('tensor_present', 'tensor is not None')],
+         raises=[('ValueError', 'len(tensor.shape) != 2 or tensor.shape[0] > tensor.shape[1]')],
+         ensures=[('packed_upper_triangle', 'val(result) == triu(val(tensor))'),
+                  ('vector_of_the_triangle', 'len(result.shape) == 1 and result.shape[0] == tri_numel(tensor.shape[0], tensor.shape[1])'),
+                  ('same_dtype_device', 'result.dtype is tensor.dtype and result.device is tensor.device'),
+                  ('a_new_tensor', 'is_fresh(result) and val(tensor) == old(val(tensor))')],
+         modifies=['ghost:next_sid'], trusted=True)
+contract('kfac.distributed:fill_triu', props=['C14', 'C08'], params={'shape': KShape, 'triu_tensor': T}, result=T,
+         requires=[('tensor_present', 'triu_tensor is not None')],
+         raises=[('ValueError', 'len(shape) != 2')],
+         ensures=[('symmetric_fill', 'val(result) == filltriu(shape, val(triu_tensor))'),
+                  ('requested_shape', 'result.shape == shape'),
+                  ('same_dtype_device', 'result.dtype is triu_tensor.dtype and result.device is triu_tensor.device'),
+                  ('a_new_tensor', 'is_fresh(result) and val(triu_tensor) == old(val(triu_tensor))')],
+         modifies=['ghost:next_sid'], trusted=True)
+
 for name in ('allreduce', 'allreduce_bucketed'):
     contract(
         f'kfac.distributed:TorchDistributedCommunicator.{name}', props=['C08', 'C03', 'C13', 'C14', 'C04', 'C02'],
@@ -37,7 +55,7 @@ for name in ('allreduce', 'allreduce_bucketed'):
         modifies=(['tensor.val', 'ghost:trace', 'ghost:next_sid'] if name == 'allreduce' else
                   ['self._allreduce_buckets', '*._tensors', '*._futures', '*._size', '*._communicated',
                    'ghost:trace', 'ghost:next_sid']),
-        trusted=True,
+        trusted=(name != 'allreduce'),
         note='interface contract used by the layer code; the communicator bodies are the subject of C08',
     )
 
@@ -55,10 +73,89 @@ contract(
         ('one_event', 'implies(group_size(group) != 1, len(trace()) == len(old(trace())) + 1)'),
         ('alone_nothing_changes', 'implies(group_size(group) == 1, val(tensor) == old(val(tensor)) and tensor.shape == old(tensor.shape))'),
     ],
-    modifies=['tensor.val', 'ghost:trace', 'ghost:next_sid'], trusted=True,
+    modifies=['tensor.val', 'ghost:trace', 'ghost:next_sid'],
 )
 contract(
     'kfac.distributed:TorchDistributedCommunicator.flush_allreduce_buckets', props=['C08', 'C03'],
     ensures=[('nothing_left_pending', 'nothing_pending(self)')], modifies=['self._allreduce_buckets', '*._tensors', '*._futures', '*._size', '*._communicated',
                           'ghost:trace', 'ghost:next_sid'], trusted=True,
+)
+
+
+# ================================================================== bucket bookkeeping (C08): bodies under contract
+B = 'kfac.distributed:AllreduceTensorBucket'
+C = 'kfac.distributed:TorchDistributedCommunicator'
+FUT = KRef('Future')
+BK = KRef('AllreduceTensorBucket')
+contract(f'{B}.__init__', props=['C08'], params={'group': G},
+         ensures=[('empty_bucket_of_the_group', 'self._group is group and len(self._tensors) == 0 and len(self._futures) == 0 '
+                                                'and self._size == 0 and not self._communicated')],
+         modifies=['self._group', 'self._tensors', 'self._futures', 'self._size', 'self._communicated'])
+contract(f'{B}.add_tensor', props=['C08'], params={'tensor': T}, result=FUT,
+         requires=[('tensor_present', 'tensor is not None'), ('lists_aligned', 'len(self._tensors) == len(self._futures)')],
+         ensures=[('appended_last', 'self._tensors == old(self._tensors) + [tensor] and self._futures == old(self._futures) + [result]'),
+                  ('size_grows_by_the_tensor', 'self._size == old(self._size) + bytes_of(tensor)'),
+                  ('a_new_pending_future', 'is_future(result) and is_fresh(result) and not result.resolved')],
+         modifies=['self._tensors', 'self._futures', 'self._size', 'ghost:next_sid'])
+contract(f'{C}.bucket_cap_bytes', props=['C08'], result=KInt, mode='inline')
+contract(f'{C}.group_ranks', props=['C08', 'C03'], params={'group': G}, result=KSetInt,
+         requires=[('member_of_group', 'in_group(group)')],
+         ensures=[('the_ranks_of_the_group', 'result == group_members(group)')], modifies=[])
+
+# class invariant of the communicator: a bucket is filed under the member set of ITS group (finding F4:
+# the key used to be the group size), and its two lists run in parallel
+spec_def('bucket_ok', ['b', 'key'], 'group_members(b._group) == key and in_group(b._group) and len(b._tensors) == len(b._futures)')
+spec_def('tdc_inv', ['tdc'], 'all(implies(tdc._allreduce_buckets[k] is not None, bucket_ok(tdc._allreduce_buckets[k], k)) '
+                             'for k in tdc._allreduce_buckets)')
+contract(f'{C}._get_allreduce_bucket', props=['C08'], params={'group': G}, result=BK,
+         requires=[('member_of_group', 'in_group(group)'), ('invariant', 'tdc_inv(self)')],
+         ensures=[('bucket_of_the_group', 'result is (old(self._allreduce_buckets)[group_members(group)] '
+                                          'if group_members(group) in old(self._allreduce_buckets) else None)'),
+                  # the table is a defaultdict: looking a group up files None under it
+                  ('lookup_files_the_key', 'self._allreduce_buckets[group_members(group)] is result'),
+                  ('invariant', 'tdc_inv(self)')],
+         modifies=['self._allreduce_buckets'])
+contract(f'{C}._new_allreduce_bucket', props=['C08'], params={'group': G}, result=BK,
+         requires=[('member_of_group', 'in_group(group)'), ('invariant', 'tdc_inv(self)')],
+         lets={'cur': '(old(self._allreduce_buckets)[group_members(group)] if group_members(group) in old(self._allreduce_buckets) else None)'},
+         raises=[('RuntimeError', 'cur is not None and not cur._communicated')],
+         ensures=[('fresh_empty_bucket_for_the_group', 'is_fresh(result) and result._group is group and len(result._tensors) == 0 '
+                                                       'and len(result._futures) == 0 and result._size == 0 and not result._communicated'),
+                  ('filed_under_the_group', 'self._allreduce_buckets[group_members(group)] is result'),
+                  ('invariant', 'tdc_inv(self)')],
+         modifies=['self._allreduce_buckets'])
+
+# ---- AllreduceTensorBucket.allreduce: one fused collective; every registered future resolves to the
+# reduction of ITS tensor (value, shape and dtype), each tensor is communicated exactly once
+spec_def('distinct_futures', ['b'], 'all(b._futures[i] is not b._futures[j] for i in range(len(b._futures)) for j in range(i))')
+RESOLVED_V = 'val(awaited(old(self._futures)[i])) == allsum(old(vals(self._tensors))[i], self._group)'
+RESOLVED_S = 'awaited(old(self._futures)[i]).shape == old(self._tensors)[i].shape'
+RESOLVED_D = 'awaited(old(self._futures)[i]).dtype is old(self._tensors)[i].dtype'
+RESOLVED_I = ('val(old(self._futures)[i].will_be) == allsum(old(val(self._tensors[i])), self._group) '
+              'and old(self._futures)[i].will_be.shape == old(self._tensors[i].shape) '
+              'and old(self._futures)[i].will_be.dtype is old(self._tensors[i].dtype)')
+contract(
+    f'{B}.allreduce', props=['C08', 'C03'], result=ANY,
+    requires=[('lists_aligned', 'len(self._tensors) == len(self._futures)'), ('member_of_group', 'in_group(self._group)'),
+              ('entries_present', 'all(self._tensors[i] is not None and self._futures[i] is not None for i in range(len(self._tensors)))'),
+              ('futures_distinct', 'distinct_futures(self)')],
+    raises=[('RuntimeError', 'self._communicated')],
+    ensures=[
+        ('marked_communicated', 'self._communicated'),
+        ('empty_bucket_sends_nothing', 'implies(len(old(self._tensors)) == 0, result is None and trace() == old(trace()))'),
+        ('one_fused_collective', 'implies(len(old(self._tensors)) != 0, len(trace()) == len(old(trace())) + 1)'),
+        ('every_future_resolves_to_the_reduction_of_its_tensor',
+         'all(' + RESOLVED_V + ' for i in range(len(old(self._tensors))))'),
+        ('with_the_shape_of_its_tensor', 'all(' + RESOLVED_S + ' for i in range(len(old(self._tensors))))'),
+        ('with_the_dtype_of_its_tensor', 'all(' + RESOLVED_D + ' for i in range(len(old(self._tensors))))'),
+        ('nothing_kept', 'implies(len(old(self._tensors)) != 0, len(self._tensors) == 0 and len(self._futures) == 0)'),
+    ],
+    # a bucket of ONE tensor is reduced in place (flatten of a single tensor is a view of it)
+    modifies=['self._communicated', 'self._tensors', 'self._futures', 'self._tensors[0].val', 'ghost:trace', 'ghost:next_sid'],
+)
+contract(
+    f'{B}.allreduce._callback', props=['C08'], mode='inline',
+    loops={'iter:zip(self._tensors, tensors, self._futures)': dict(index='i', invariants=[
+        ('resolved_so_far', 'all(val(self._futures[m].will_be) == val(tensors[m]) and self._futures[m].will_be.shape == tensors[m].shape '
+                            'and self._futures[m].will_be.dtype is self._tensors[m].dtype for m in range(i))')])},
 )
